@@ -57,6 +57,11 @@ pub struct Case {
     /// thread-group leader has a different file at the handle's descriptor number
     #[serde(default)]
     pub private_fdtable: bool,
+    /// the caller is the init process of a new pid namespace (pid 1, tid 1) while the
+    /// library's process-wide procfs handle was created before, in the parent namespace by
+    /// that namespace's own pid 1, which holds a decoy at the handle's descriptor number
+    #[serde(default)]
+    pub pidns: bool,
 }
 
 pub fn rflags() -> impl Strategy<Value = i32> {
@@ -95,8 +100,17 @@ pub fn strategy() -> impl Strategy<Value = Case> {
         prop_oneof![3 => Just(ProcState::Normal), 2 => (0u8..8).prop_map(ProcState::OverMounted)],
         prop_oneof![3 => Just(false), 1 => Just(true)],
         prop_oneof![3 => Just(false), 1 => Just(true)],
+        prop_oneof![7 => Just(false), 1 => Just(true)],
     )
-        .prop_map(|(kcfg, kind, flags, fdnum, history, capi, proc_state, unprivileged, private_fdtable)| Case { kcfg, kind, flags, fdnum, history, capi, proc_state, unprivileged, private_fdtable })
+        .prop_map(|(kcfg, kind, flags, fdnum, history, capi, proc_state, unprivileged, private_fdtable, pidns)| {
+            if pidns {
+                // the namespace variant runs the call on the main thread of the new init
+                // process: no seccomp configuration, no other dimension mixed in
+                Case { kcfg: Kcfg::Full, kind, flags, fdnum, history, capi, proc_state: ProcState::Normal, unprivileged: false, private_fdtable: false, pidns }
+            } else {
+                Case { kcfg, kind, flags, fdnum, history, capi, proc_state, unprivileged, private_fdtable, pidns }
+            }
+        })
 }
 
 #[derive(Clone, Debug, Serialize, Deserialize)]
@@ -295,7 +309,82 @@ pub fn child(case: &Case) -> Report {
     }
     // the library call, on a worker thread with the kcfg filter
     let decoy = openat_raw(libc::AT_FDCWD, sb.outside().join("secret.f").as_os_str().as_encoded_bytes(), libc::O_PATH, 0).unwrap_or(-1);
-    let (out, same, private) = with_session(case.kcfg, None, |s| {
+    let direct = |case: &Case, hfd: i32| -> (Out, Option<bool>) {
+        let (out, fd): (Out, Option<OwnedFd>) = if case.capi {
+            let r = unsafe { pathrs_reopen(hfd, case.flags) };
+            let (o, fd) = c_out(r, true);
+            (o, fd.map(|f| unsafe { OwnedFd::from_raw_fd(f) }))
+        } else {
+            let h = Handle::from_fd(unsafe { OwnedFd::from_raw_fd(hfd) });
+            let r = guarded(|| h.reopen(OpenFlags::from_bits_retain(case.flags)));
+            let res = match r {
+                Ok(f) => {
+                    let fd = OwnedFd::from(f);
+                    (Out::Fd(Obj::of_fd(fd.as_raw_fd())), Some(fd))
+                }
+                Err(o) => (o, None),
+            };
+            std::mem::forget(h);
+            res
+        };
+        let same = match &out {
+            Out::Fd(o) => Some(Some(o.id()) == fstat(hfd).ok().map(|s| s.id)),
+            _ => None,
+        };
+        drop(fd);
+        (out, same)
+    };
+    let (out, same, private) = if case.pidns && hfd >= 0 && decoy >= 0 {
+        // Two nested pid namespaces. M is pid 1 of the first one and brings the library's
+        // process-wide procfs handle into being there (so that "pid 1, tid 1" of that
+        // procfs is M itself, visible whatever hidepid says). B is pid 1 / tid 1 of the
+        // second one, inherits that handle, and reopens a handle that lives at a
+        // descriptor number where M holds a decoy.
+        let inner = || -> Result<(Out, Option<bool>), String> {
+            unsafe {
+                let r = pathrs_proc_readlink(PATHRS_PROC_SELF, b"cwd\0".as_ptr() as *const libc::c_char, std::ptr::null_mut(), 0);
+                if r < 0 {
+                    let _ = take_error(r);
+                }
+            }
+            if unsafe { libc::unshare(libc::CLONE_NEWPID) } != 0 {
+                return Err(format!("inner unshare(CLONE_NEWPID): {}", errno_name(errno())));
+            }
+            match run_in_child(60.0, || {
+                let moved = unsafe { libc::dup3(hfd, decoy, libc::O_CLOEXEC) };
+                if moved != decoy {
+                    return (Out::Err { kind: "no-handle".into(), errno: None }, None);
+                }
+                direct(case, decoy)
+            }) {
+                ChildOut::Ok(r) => Ok(r),
+                ChildOut::Crashed { sig } => Ok((Out::Panicked(format!("the process died with signal {}", sig)), None)),
+                ChildOut::Exit { code, stderr_hint } => Err(format!("namespace child exit {}: {}", code, stderr_hint)),
+                ChildOut::Timeout => Err("namespace child timed out".into()),
+            }
+        };
+        if unsafe { libc::unshare(libc::CLONE_NEWPID) } != 0 {
+            rep.setup_problem = Some(format!("unshare(CLONE_NEWPID): {}", errno_name(errno())));
+            return rep;
+        }
+        match run_in_child(90.0, inner) {
+            ChildOut::Ok(Ok((o, s))) => (o, s, true),
+            ChildOut::Ok(Err(e)) => {
+                rep.setup_problem = Some(e);
+                return rep;
+            }
+            ChildOut::Crashed { sig } => (Out::Panicked(format!("the process died with signal {}", sig)), None, true),
+            ChildOut::Exit { code, stderr_hint } => {
+                rep.setup_problem = Some(format!("namespace child exit {}: {}", code, stderr_hint));
+                return rep;
+            }
+            ChildOut::Timeout => {
+                rep.setup_problem = Some("namespace child timed out".into());
+                return rep;
+            }
+        }
+    } else {
+    with_session(case.kcfg, None, |s| {
         if case.private_fdtable && hfd >= 0 && decoy >= 0 {
             // the library's thread gets a copy of the table; afterwards the leader's
             // entry at the handle's number is replaced by a decoy
@@ -348,7 +437,8 @@ pub fn child(case: &Case) -> Report {
             drop(fd);
             (out, same, private)
         })
-    });
+    })
+    };
     rep.out = out;
     rep.same_inode = same;
     rep.private_procfs = private;
@@ -374,6 +464,9 @@ pub fn judge(case: &Case, rep: &Report, stats: &mut Stats) -> Result<(), Fail> {
     if case.private_fdtable {
         stats.class("caller:thread-with-private-descriptor-table");
     }
+    if case.pidns {
+        stats.class("caller:init-of-a-new-pid-namespace");
+    }
     stats.class(if rep.private_procfs { "procfs:private-possible" } else { "procfs:host-only" });
     let over = matches!(case.proc_state, ProcState::OverMounted(_));
     if !case.history.is_empty() || (0..=2).contains(&case.fdnum) || over || has_create(case.flags) {
@@ -385,7 +478,7 @@ pub fn judge(case: &Case, rep: &Report, stats: &mut Stats) -> Result<(), Fail> {
         Fail::Violation(Violation {
             check: "reopen".into(),
             signature: sig,
-            message: format!("reopen of a {:?} handle living at descriptor {} with flags 0x{:x}{} (kcfg {}, {}{}, /proc {:?})\n  history: {:?}\n  mounts: {:?}\n  kernel reference (open through the fd link on a pristine procfs): {}\n  library: {} (same inode: {:?})\n  {}", case.kind, case.fdnum, case.flags, if case.capi { " [C]" } else { "" }, case.kcfg.name(), if case.unprivileged { "unprivileged" } else { "root" }, if case.private_fdtable { ", thread with its own descriptor table (leader has a decoy at that number)" } else { "" }, case.proc_state, rep.history_applied, rep.mounts, rep.reference, rep.out.brief(), rep.same_inode, msg),
+            message: format!("reopen of a {:?} handle living at descriptor {} with flags 0x{:x}{} (kcfg {}, {}{}, /proc {:?})\n  history: {:?}\n  mounts: {:?}\n  kernel reference (open through the fd link on a pristine procfs): {}\n  library: {} (same inode: {:?})\n  {}", case.kind, case.fdnum, case.flags, if case.capi { " [C]" } else { "" }, case.kcfg.name(), if case.unprivileged { "unprivileged" } else { "root" }, if case.private_fdtable { ", thread with its own descriptor table (leader has a decoy at that number)" } else if case.pidns { ", init process of a new pid namespace (the library's procfs handle predates it)" } else { "" }, case.proc_state, rep.history_applied, rep.mounts, rep.reference, rep.out.brief(), rep.same_inode, msg),
             case: serde_json::to_value(case).unwrap(),
         })
     };
@@ -496,7 +589,7 @@ fn replay(_ctx: &Ctx, _check: &str, case: &Value) -> Result<(), Fail> {
 pub const PROP: Prop = Prop {
     id: "C09",
     level: "exploration",
-    rule: "inode type {file, dir, fifo, chr, symlink} x open flags (access mode x {APPEND, NOATIME, DIRECTORY, NOFOLLOW, CLOEXEC, SYNC, TRUNC, PATH} and the creation flags O_CREAT/O_EXCL/O_TMPFILE) x the descriptor number the handle lives at {0,1,2,3,7,255,1023, invalid} x calling thread {shares the process's descriptor table; has its own after unshare(CLONE_FILES) while the thread-group leader holds a decoy at the same number} x history of 0-4 rename / rename-parent / replace-by-file/dir/link-to-decoy / unlink / rename-back operations applied to the handle's path before reopening x host /proc state {normal; private mount namespace with tmpfs or bind mounts over /proc/<pid>/fd, the fd magic-link itself, /proc/<pid>/task, /proc/<pid>} x caller {root; uid 65534 without capabilities} x kernel configuration x {Handle::reopen, pathrs_reopen}. Oracle: a successful reopen has the handle's (dev,ino) -- never the impostor at the old name, never an over-mounted object; symlink handles => ELOOP; creation flags => error and no new directory entry; otherwise outcome, errno and F_GETFL equal the kernel's own open of the same inode with the same flags through the fd link of a pristine procfs; close-on-exec; callers that cannot get a private procfs may only get errors from over-mounts. non-trivial = non-empty history, fd in {0,1,2}, over-mounted /proc, or creation flags; distinct by the whole case",
+    rule: "inode type {file, dir, fifo, chr, symlink} x open flags (access mode x {APPEND, NOATIME, DIRECTORY, NOFOLLOW, CLOEXEC, SYNC, TRUNC, PATH} and the creation flags O_CREAT/O_EXCL/O_TMPFILE) x the descriptor number the handle lives at {0,1,2,3,7,255,1023, invalid} x calling thread {shares the process's descriptor table; has its own after unshare(CLONE_FILES) while the thread-group leader holds a decoy at the same number; is pid 1 / tid 1 of a fresh pid namespace while the library's procfs handle was made in the old one} x history of 0-4 rename / rename-parent / replace-by-file/dir/link-to-decoy / unlink / rename-back operations applied to the handle's path before reopening x host /proc state {normal; private mount namespace with tmpfs or bind mounts over /proc/<pid>/fd, the fd magic-link itself, /proc/<pid>/task, /proc/<pid>} x caller {root; uid 65534 without capabilities} x kernel configuration x {Handle::reopen, pathrs_reopen}. Oracle: a successful reopen has the handle's (dev,ino) -- never the impostor at the old name, never an over-mounted object; symlink handles => ELOOP; creation flags => error and no new directory entry; otherwise outcome, errno and F_GETFL equal the kernel's own open of the same inode with the same flags through the fd link of a pristine procfs; close-on-exec; callers that cannot get a private procfs may only get errors from over-mounts. non-trivial = non-empty history, fd in {0,1,2}, over-mounted /proc, or creation flags; distinct by the whole case",
     assumptions: &["the handle is created by the harness (O_PATH|O_NOFOLLOW open moved to the requested descriptor number) and wrapped with Handle::from_fd", "whether over-mounts are visible is decided from whether the caller can create a private procfs (fsopen/open_tree probe) and the kernel configuration"],
     lanes: |_| 16,
     run_lane,
